@@ -1,5 +1,6 @@
 import MtblProofs.MergerProofs
 import MtblProofs.SourceProofs
+import MtblProps.C01
 /-
   C04 — Merger output is the sorted union of its sources, folded by the merge function.
   Sources are abstract cursors obeying the iterator contract (readers by C03, mergers, sorters, user sources).
@@ -52,6 +53,32 @@ theorem C04_source_write (c : MCfg) (hF2 : c.fixF2 = true)
 theorem C04_source_write_stops (w : W) (pre : List Entry) (e : Entry) (rest : List Entry)
     (hp : ∀ r ∈ (w.addAll pre).1, r = Res.success) (he : ((w.addAll pre).2.add e.key e.val).1 = .failure) :
     w.writeFrom (pre ++ e :: rest) = (.failure, (w.addAll pre).2) := writeFrom_stops w pre e rest hp he
+
+/-- the merge → write → read pipeline of `mtbl_merge` / `mtbl_source_write`: the merged content of a merger with a merge
+    function, written entry by entry into a fresh writer (any configuration, any foreign prefix) and finished, opens and
+    iterates back to exactly the merged content — C04_merge ∘ C04_source_write ∘ C01_roundtrip -/
+theorem C04_merge_write_read (c : MCfg) (hF2 : c.fixF2 = true)
+    (htot : ∀ a b, hle c a b = true ∨ hle c b a = true)
+    (htrans : ∀ a b d, hle c a b = true → hle c b d = true → hle c a d = true)
+    {f : Bytes → Bytes → Bytes → Option Bytes} (hm : c.merge = some f) (hok : ∀ k a b, f k a b ≠ none)
+    (srcs : Array Src) (hs : ∀ s ∈ srcs.toList, Sorted s.es) (fuel : Nat)
+    (hfuel : (srcs.toList.map fun s => s.es.length).sum + 1 ≤ fuel)
+    (cfg : WCfg) (comp : Bytes → Bytes) (decomp : Nat → Bytes → Option Bytes) (hw : WriterOK cfg comp decomp)
+    (pre : Bytes) (hz : SizesOK cfg comp pre (mergerDrain c fuel (mergerInit c srcs))) (verify : Bool) :
+    let out := mergerDrain c fuel (mergerInit c srcs)
+    let w := (W.new cfg pre.length).writeFrom out
+    w.1 = .success ∧
+    ∃ r, readerOpen true cfg.thr decomp verify (pre ++ w.2.finish) = .ok r ∧
+      ((out = [] ∧ readerIterInit true r none .iter = some none) ∨
+       (∃ it₀, readerIterInit true r none .iter = some (some it₀) ∧
+          rRun it₀ (List.replicate (out.length + 1) .next) = some (out.map some ++ [none]))) := by
+  intro out w
+  have hsorted := (mergerDrain_merge c hF2 htot htrans hm hok srcs hs fuel hfuel).1
+  have hw' : w = (.success, ((W.new cfg pre.length).addAll out).2) := sourceWrite_sorted cfg pre.length out hsorted
+  refine ⟨by rw [hw'], ?_⟩
+  have := Mtbl.C01.C01_roundtrip cfg comp decomp hw pre out hsorted hz verify
+  rw [hw']
+  exact this
 
 /-- one call, with a merge function: exhausted, or the minimum key with all its values folded once each,
     or — if the callback reports failure while that key is being assembled — the call returns failure -/
